@@ -11,20 +11,24 @@ PRELUDE = [("iface", "IFoo", None, [("method", "nop", [], False, None)]),
            ("struct", "ST", [("IFoo", "f", None), ("interface", "g", None)]),
            ("struct", "SN", [("SO", "x", None), ("SO", "y", None)]),
            ("struct", "SC", [("IFoo", "o", None)]),
-           ("struct", "SW", [("uint64", "id", None), ("SC", "c", None), ("uint64", "f", None)])]
+           ("struct", "SW", [("uint64", "id", None), ("SC", "c", None), ("uint64", "f", None)]),
+           ("struct", "SM", [("uint64", "a", None), ("SC", "nested", None), ("IFoo", "direct", None), ("uint64", "b", None)])]
 IDL_PRELUDE = """interface IFoo { method nop(); };
 struct SO { interface o; uint64 a; uint64 b; };
 struct ST { IFoo f; interface g; };
 struct SN { SO x; SO y; };
 struct SC { IFoo o; };
 struct SW { uint64 id; SC c; uint64 f; };
+struct SM { uint64 a; SC nested; IFoo direct; uint64 b; };
 """
 # true object fields (access path) of the object-bearing structs
 FIELDS = {"SO": [("o", "interface")], "ST": [("f", "IFoo"), ("g", "interface")], "SN": [("x.o", "interface"), ("y.o", "interface")],
           # the only object sits in a nested struct that is itself exactly one object (16 bytes: "small")
-          "SW": [("c.o", "IFoo")]}
+          "SW": [("c.o", "IFoo")],
+          # an object of a nested struct declared BEFORE an object of the struct itself
+          "SM": [("direct", "IFoo"), ("nested.o", "IFoo")]}
 DATA = {"SO": [("a", 1), ("b", 2)], "ST": [], "SN": [("x.a", 1), ("x.b", 2), ("y.a", 3), ("y.b", 4)],
-        "SW": [("id", 5), ("f", 6)]}
+        "SW": [("id", 5), ("f", 6)], "SM": [("a", 7), ("b", 8)]}
 
 
 def gen_methods(rng, n, with_dup_path=False):
@@ -69,6 +73,8 @@ def gen_methods(rng, n, with_dup_path=False):
         ms.append(("m%d" % len(ms), [("in", "SN", None, "p0"), ("out", "SN", None, "p1")]))
         ms.append(("m%d" % len(ms), [("in", "SW", None, "p0"), ("out", "SW", None, "p1"), ("in", "interface", None, "p2")]))
         ms.append(("m%d" % len(ms), [("out", "SW", None, "p0")]))
+        ms.append(("m%d" % len(ms), [("in", "SM", None, "p0"), ("out", "SM", None, "p1")]))
+        ms.append(("m%d" % len(ms), [("out", "SM", None, "p0"), ("in", "SM", None, "p1"), ("in", "IFoo", None, "p2")]))
     return ms
 
 
@@ -376,7 +382,7 @@ pub mod interfaces {
 }
 use interfaces::ifoo::IFoo;
 use interfaces::il2::{Error, IIL2, IL2};
-use interfaces::l2::{SC, SN, SO, ST, SW};
+use interfaces::l2::{SC, SM, SN, SO, ST, SW};
 use object::Object;
 use std::mem::ManuallyDrop;
 
@@ -530,6 +536,8 @@ def rust_struct_lit(t, objexpr, add):
         return "SN { x: SO { o: %s, a: %d, b: %d }, y: SO { o: %s, a: %d, b: %d } }" % (objexpr("x.o"), 1 + add, 2 + add, objexpr("y.o"), 3 + add, 4 + add)
     if t == "SW":
         return "SW { id: %d, c: SC { o: %s }, f: %d }" % (5 + add, objexpr("c.o"), 6 + add)
+    if t == "SM":
+        return "SM { a: %d, nested: SC { o: %s }, direct: %s, b: %d }" % (7 + add, objexpr("nested.o"), objexpr("direct"), 8 + add)
     raise KeyError(t)
 
 
